@@ -145,6 +145,7 @@ def run_C16(tier, seed):
 
 
 def run_C10(tier, seed):
+    B.build_cli()
     return simple("C10", tier, seed, "exploration",
                   "case = one generated logical container (1..7 contents, two entry stores incl. variants and a sorted path store, 0..2 "
                   "extra content packs). Scenarios per case: created as OneFile, TwoFiles and NoConcat; tools::concat of the separate "
@@ -170,6 +171,7 @@ def run_C11(tier, seed):
 
 
 def run_C12(tier, seed):
+    B.build_cli()
     return simple("C12", tier, seed, "exploration",
                   "case = a history of 1..12 (thorough ..30) tools::set_location calls on a manifest that is standalone (NoConcat), inside "
                   "a OneFile/TwoFiles container, or inside a container re-assembled by concat in a random order (manifest at another "
@@ -209,6 +211,7 @@ def lab_crash_sig(c):
 
 
 def run_C04(tier, seed):
+    B.build_cli()
     rep = Report("C04", tier, seed, "fault_enumeration",
                  LAB_RULE + "; C04 restricts positions to bytes the independent decoder's coverage map attributes to a pack's hashed "
                  "range [0, checkInfoPos) or its check block, excluding the manifest's masked location bytes. Oracle: after the damage, "
@@ -345,6 +348,7 @@ PROPS = {"C07": run_C07, "C08": run_C08, "C09": run_C09, "C04": run_C04, "C05": 
 def cmd_setup():
     B.build("debug")
     B.build("release")
+    B.build_cli()
     return 0
 
 
@@ -356,6 +360,8 @@ def cmd_replay(path):
     if profile not in ("debug", "release", "asan", "tsan"):
         profile = "debug"
     b = B.build(profile)
+    if prop in ("C04", "C10", "C12"):
+        B.build_cli()
     work = mkwork("replay")
     p = subprocess.run([b, "replay", prop, "--case-file", path, "--work", work, "--tier", r.get("tier", "quick"),
                         "--seed", str(r.get("seed", 1))], stdout=subprocess.PIPE, stderr=subprocess.PIPE, text=True, env=env())
